@@ -272,7 +272,13 @@ impl Service {
                 let mut new_instance = instance.as_ref().clone();
                 new_instance.from_cluster = 0;
                 new_instance.last_modified_millis = now;
-                self.healthy_timeout_set.add(now as u64, key.clone());
+                if new_instance.healthy {
+                    self.healthy_timeout_set.add(now as u64, key.clone());
+                } else {
+                    //the former owner had already marked it unhealthy: it waits for its removal, not for
+                    //being marked unhealthy once more (which would never queue it for removal)
+                    self.unhealthy_timeout_set.add(now as u64, key.clone());
+                }
                 self.instances.insert(key, Arc::new(new_instance));
             }
         }
